@@ -10,7 +10,7 @@ from . import common
 
 NAME = "U-condval"
 TOOL = "verus"
-PROPS = ["C01", "C13", "C16"]
+PROPS = ["C01", "C13", "C16", "C10"]
 RLIMIT = 150
 TRUSTED = ["verus 0.2026.09.13 + z3", "A-isa: LDA #imm, STA cctmp, PHA, PLA, JMP", "A-fmt (R4)",
            "generate_condition's contract (it jumps to the label exactly when `condition` holds, negated if asked, and otherwise falls through; it leaves the stack alone when the accumulator "
@@ -195,7 +195,7 @@ def build(repo):
             res is Ok ==> alternatives is BinOp,
             res is Ok ==> final(self).gh@.skip is None, //@ C01,C13:ternary-jumps-land
             // the value of `c ? x : y`
-            res is Ok ==> val(final(self).gh@, res->Ok_0) == (if old(self).gh@.truth { sem(*alternatives->BinOp_lhs) } else { sem(*alternatives->BinOp_rhs) }), //@ C01:ternary-value
+            res is Ok ==> val(final(self).gh@, res->Ok_0) == (if old(self).gh@.truth { sem(*alternatives->BinOp_lhs) } else { sem(*alternatives->BinOp_rhs) }), //@ C01,C10:ternary-value
             res is Ok ==> final(self).gh@.stack == old(self).gh@.stack, //@ C01:ternary-stack-balanced
             (res is Ok && old(self).acc_in_use) ==> (final(self).gh@.a == old(self).gh@.a && final(self).acc_in_use && res->Ok_0 is Tmp), //@ C01:ternary-live-accumulator-kept
 """ % (suffix, case), expect_sig="fn generate_ternary( &mut self, condition: &Expr, alternatives: &Expr, pos: usize, ) -> Result<ExprType, Error>")
